@@ -3,6 +3,7 @@ package rules
 import (
 	"go/constant"
 	"go/token"
+	"go/types"
 
 	"dirkcheck/internal/an"
 	"dirkcheck/internal/prog"
@@ -275,6 +276,27 @@ func (w *originWalker) elems(s ssa.Value, at ssa.Instruction, chain []ssa.CallIn
 		}
 	case *ssa.Const:
 		// nil slice: no elements
+	case *ssa.Alloc:
+		// slice literal: new [N]T; &t[i] = v; slice t[:]
+		if _, isArr := x.Type().(*types.Pointer).Elem().Underlying().(*types.Array); !isArr {
+			w.opaque(root, at, chain)
+			return
+		}
+		for _, r := range *x.Referrers() {
+			switch y := r.(type) {
+			case *ssa.IndexAddr:
+				for _, r2 := range *y.Referrers() {
+					if st, ok := r2.(*ssa.Store); ok && st.Addr == ssa.Value(y) {
+						w.value(st.Val, st, chain, d+1)
+					}
+				}
+			case *ssa.Slice:
+			default:
+				if _, isDbg := r.(*ssa.DebugRef); !isDbg {
+					w.opaque(root, at, chain)
+				}
+			}
+		}
 	default:
 		w.opaque(root, at, chain)
 	}
